@@ -683,6 +683,11 @@ func (wf *Workflow[I, O]) initNode(key string) *WorkflowNode {
 		},
 		mappedFieldPath: make(map[string]any),
 	}
+	if wf.g.compiled && key != END {
+		// a node declared after a successful Compile: the graph has refused it (ErrGraphCompiled), which
+		// only the next Compile can report - like an input, a static value or a branch declared then
+		n.addInputs = append(n.addInputs, func() error { return ErrGraphCompiled })
+	}
 	if _, ok := wf.workflowNodes[key]; !ok {
 		wf.nodeOrder = append(wf.nodeOrder, key)
 	}
